@@ -28,9 +28,10 @@ ANY = "any"
 class Pat:
     """Builds pre-existing (entry-state) heap shapes."""
 
-    def __init__(self, it: Interp):
+    def __init__(self, it: Interp, concrete_idents: bool = False):
         self.it = it
         self.names: Dict[str, int] = {}
+        self.concrete_idents = concrete_idents
 
     def build(self, spec, parent: Optional[int] = None) -> Node:
         it = self.it
@@ -53,7 +54,7 @@ class Pat:
                     it.assume_sign(("sym", f"c{c.cid}"), frozenset(["zero", "pos"]))
         elif kind == "var":
             c = it.new_cell(frozenset(["VariableExpression"]), False, "child")
-            it._set_entry(c, "identifier", Ident(spec[1]))
+            it._set_entry(c, "identifier", spec[1] if self.concrete_idents else Ident(spec[1]))
             it._set_entry(c, "left", None)
             it._set_entry(c, "right", None)
             self.names.setdefault("var:" + spec[1], c.cid)
